@@ -448,6 +448,9 @@ func (n *Net) answer(s network.Stream, req *p2p_pb.HeaderRequest, a Answer) {
 		}
 		_ = writeResp(s, h, p2p_pb.StatusCode_INVALID)
 		_ = s.Close()
+	case "zero-length-frame": // a length prefix of 0: a protobuf message with no field at all
+		_, _ = s.Write([]byte{0x00})
+		_ = s.Close()
 	case "empty-close":
 		_ = s.Close()
 	case "extra": // more responses than asked
